@@ -668,7 +668,13 @@ def run(rep):
                     rep.violation("H3c-last-bin", k3c, where, {"problem": "no bin is created for the component-wise greatest key: the sums are stored under keys of the source only",
                                                                "example": "bins (2,1)=1 (2,4)=1 (5,3)=1: cumulative (2,1)=1 (2,4)=2 (5,3)=2, no bin holds the total 3 (the last bin (5,4) does not exist)"})
                 elif not any(fk.startswith(fill_in("tuple_component_max({K},{u}.first,", envc)) for fk in folds):
-                    rep.incon("H3c-last-bin", k3c, {"unrecognised": "the key %s of the total is not a component-wise maximum over all keys: %s" % (envc["K"], folds)})
+                    lex = [kk for kk in keys if re.fullmatch(r"\(%s = \S+\.first\)" % re.escape(envc["K"]), kk)]
+                    if lex and not folds:
+                        # the key of the total is the greatest key in std::tuple's (lexicographic) order: not the greatest of every axis
+                        rep.violation("H3c-last-bin", k3c, where, {"problem": "the total is stored under the lexicographically greatest key (%s), not under the greatest key of every axis" % lex[0],
+                                                                   "example": "bins (1,9)=2 (5,2)=2: the total 4 overwrites the bin (5,2), whose cumulative value is 2; the last bin (5,9) does not exist"})
+                    else:
+                        rep.incon("H3c-last-bin", k3c, {"unrecognised": "the key %s of the total is not a component-wise maximum over all keys: %s" % (envc["K"], folds)})
                 elif helper_max.get("ok") is not True:
                     rep.violation("H3c-last-bin", k3c, where, {"problem": "detail::tuple_component_max does not raise every component to the greater one", "statements": helper_max.get("eff")})
                 else:
